@@ -220,7 +220,7 @@ func TestVerifC03Dec(t *testing.T) {
 	}
 
 	// ---- corpus: "l1 <cfg…> raw <hex>" / "l1 <cfg…> v …" lines
-	for _, l := range vfutil.Corpus("C03") {
+	for _, l := range append(vfc03.ReplayOps(), vfutil.Corpus("C03")...) {
 		f := strings.Fields(l)
 		if len(f) < 7 || f[0] != "l1" {
 			continue
@@ -235,8 +235,12 @@ func TestVerifC03Dec(t *testing.T) {
 			data = vfutil.UnHex(f[6])
 		} else {
 			outs, err := vfc03.Encode([]string{rest})
-			if err != nil || outs[0].Bad {
+			if err != nil {
 				t.Fatalf("corpus line not encodable: %v %q", err, l)
+			}
+			if outs[0].Bad {
+				s.Count("corpus_or_replay_not_wellformed")
+				continue
 			}
 			data = outs[0].File
 		}
